@@ -66,4 +66,23 @@ CLAIMS = {
                  "and the exact Some(Some)/Some(None)/None -> Ok/AmbiguousCodon/InvalidAmino flow of try_to_codon.",
         "note": TRUST + "HashMap semantics trusted; lookup by slice relies on C02's Borrow/Hash/Eq rows.",
     },
+    "C07": {
+        "technique": "chunk-loop shape rules (reverse-all then per-chunk reverse; per-chunk decode/complement/encode in place) + symbol involution tables + default-method provenance + reachability of &mut SeqSlice",
+        "level": "Decides the structure that makes rev/comp/revcomp exact: whole-content reverse followed by per-symbol reverse over an exact BITS chunking; per-chunk "
+                 "in-place complement through load_le/unsafe_from_bits/comp/to_bits/store on the same chunk; revcomp = comp and rev (default, not overridden); to_* = to_owned then op; "
+                 "comp is an involution on every symbol of the five complementable codecs (exhaustive tables).",
+        "note": TRUST + "bitvec reverse/chunking on word-straddling symbols trusted. SeqSlice's &mut impls are dormant while no safe API yields &mut SeqSlice (checked).",
+    },
+    "C12": {
+        "technique": "one-hot code table vs IUPAC sets (exhaustive) + operator/trait correspondence shapes + guard rows for the three contains",
+        "level": "Decides that Iupac codes are the set unions (so | and & are union/intersection), From<Dna> gives singletons, complement is the set image; that & and | on slices "
+                 "copy lhs then and/or-assign rhs (and the owned forms use BitVec & / |), and that contains is false on unequal lengths and otherwise (self & rhs) == rhs.",
+        "note": TRUST + "bitvec op-assign across different alignments trusted (model row).",
+    },
+    "C20": {
+        "technique": "exhaustive mask/unmask/comp symbol tables by constant propagation + chunk-loop shape rule with sibling cross-check (mask loop calls mask, unmask loop calls unmask)",
+        "level": "Complete at symbol level for both masked codecs (case change only, idempotence, unmask after mask, set preservation, commutation with complement; Dna toggle involution "
+                 "fixing gap/pad); at sequence level decides the position-wise in-place loop shape and the to_mask/to_unmask defaults.",
+        "note": TRUST + "bitvec load_le/store on 5-bit chunks straddling words trusted.",
+    },
 }
